@@ -1,0 +1,47 @@
+//go:build verif
+
+package otp
+
+import "sync"
+
+// Verification hooks (build tag "verif" only): thin exported wrappers around unexported
+// internals so that an external harness can compare each pipeline stage with its formal
+// model.  They add no behaviour and are not compiled into normal builds.
+
+func VerifTruncate(sum []byte, mod uint64) uint32 { return truncate(sum, mod) }
+
+func VerifShortDigit(otp uint32, digits int) string { return shortDigit(otp, digits) }
+
+func VerifLongDigit(otp uint32, digits int) string { return longDigit(otp, digits) }
+
+func VerifFormatDecimal(val uint32, digits int) string { return formatDecimal(val, digits) }
+
+func VerifPadBytes(input []byte, length int) []byte { return padBytes(input, length) }
+
+func VerifMod10() []uint64 { return append([]uint64(nil), mod10[:]...) }
+
+func VerifDeriveRFC4226(secret []byte, counter uint64, digits int, algo Algorithm) (string, error) {
+	return deriveRFC4226(secret, counter, digits, algo)
+}
+
+func VerifDeriveRFC6287(secret []byte, s Suite, input OCRAInput) (string, error) {
+	return deriveRFC6287(secret, s, input)
+}
+
+func VerifValidateRFC4226(code string, secret []byte, counter uint64, digits Digits, algo Algorithm) (bool, error) {
+	return validateRFC4226(code, secret, counter, digits, algo)
+}
+
+// VerifPools exposes the two scratch-buffer pools (8-byte counter buffers, OCRA message buffers).
+func VerifPools() (rfc4226 *sync.Pool, rfc6287 *sync.Pool) { return &rfc4226BufPool, &rfc6287BufPool }
+
+// VerifKnownSuites returns a copy of the suite registry.
+func VerifKnownSuites() map[string]SuiteConfig {
+	out := make(map[string]SuiteConfig, len(knownSuites))
+	for k, v := range knownSuites {
+		out[k] = v
+	}
+	return out
+}
+
+func VerifParseRawSuite(raw string) (SuiteConfig, error) { return parseRawSuite(raw) }
